@@ -39,6 +39,7 @@ type BinaryEntropyEncoder struct {
 	high      uint64
 	bitstream kanzi.OutputBitStream
 	disposed  bool
+	encoded   bool
 	buffer    []byte
 	index     int
 }
@@ -137,6 +138,7 @@ func (this *BinaryEntropyEncoder) Write(block []byte) (int, error) {
 		chunkSize := min(length, end-startChunk)
 		buf := block[startChunk : startChunk+chunkSize]
 		this.index = 0
+		this.encoded = true
 
 		for i := range buf {
 			this.EncodeByte(buf[i])
@@ -175,6 +177,12 @@ func (this *BinaryEntropyEncoder) Dispose() {
 	}
 
 	this.disposed = true
+
+	if this.encoded == false {
+		// Nothing was encoded: the decoder reads nothing for an empty block
+		return
+	}
+
 	this.bitstream.WriteBits(this.low|_BINARY_MASK_0_24, 56)
 }
 
